@@ -517,6 +517,14 @@ def run_case(case, ctx):
         if set(dr) != set(dt) or any(abs(dr[k] - dt[k]) > 1e-12 + (1e-9 * dt[k] if unit != 1.0 else 0.0) for k in dr):
             bad("fully_functional", "edge_node_distances", "edge_node_distances differ from a fresh grid's", f_site)
             return fails
+        if case["source"] != "mpas":
+            # (for an MPAS-like source dcEdge is the source's own table, in its own unit: not compared)
+            fr = {rp[e]: float(v) for e, v in enumerate(np.asarray(res.edge_face_distances.values, float))}
+            ft = {tp[e]: float(v) for e, v in enumerate(np.asarray(twin.edge_face_distances.values, float))}
+            worst = max(fr, key=lambda k: abs(fr[k] - ft.get(k, 0.0))) if fr else None
+            if set(fr) != set(ft) or (worst is not None and abs(fr[worst] - ft[worst]) > 1e-9):
+                bad("fully_functional", "edge_face_distances", f"edge_face_distances differ from a fresh grid's: edge between nodes {worst}: {fr.get(worst)!r} vs {ft.get(worst)!r} (zero on the subset's boundary edges)", f_site)
+                return fails
         if sorted(int(i) for i in np.atleast_1d(res.antimeridian_face_indices)) != sorted(int(i) for i in np.atleast_1d(twin.antimeridian_face_indices)):
             bad("fully_functional", "antimeridian_face_indices", f"{np.atleast_1d(res.antimeridian_face_indices).tolist()} vs fresh {np.atleast_1d(twin.antimeridian_face_indices).tolist()}", f_site)
             return fails
